@@ -233,12 +233,20 @@ package parser
 //@ loop 0: invariant [F1] ParsedSoFar(tree.Nodes, old(pcur(p))) && pcur(p) - 1 == stmtStart(old(pcur(p))) && next == strmAll[pcur(p) - 1]
 //@ loop 0: decreases avail(p)
 
-// New starts the lexer goroutine behind the Tokeniser interface; the parser-side view of the token
-// stream is initialised for this input (the Tokeniser link is trusted, DESIGN.md section 5).
+// New: the parser keeps the input, hands exactly that text to the lexer, and starts with an empty
+// look-ahead buffer. The parser-side view of the token stream (ghost) is initialised here; that
+// Tokeniser.NextToken then delivers the tokens of this input in order is the trusted hand-over.
 //@ func New
-//@ trusted starts the lexer goroutine; initial state of the parser-side stream ghosts
+//@ props C08 C06 C07 C11 C15 C16
 //@ modifies strmLeft, strmDone, strmExp, strmLastT, strmInput, strmN
+//@ at entry: ghost strmInput = input
+//@ at entry: ghost strmN = 0
+//@ at entry: ghost strmDone = false
+//@ at entry: ghost strmExp = 0
+//@ at entry: ghost strmLastT = 0 - 1
+//@ at entry: ghost strmLeft = tokCount(input)
 //@ ensures result != nil && fresh(result) && PInv(result) && SInv() && !strmDone && result.peekCount == 0 && strmInput == input && strmN == 0
+//@ ensures [C08,the-lexer-scans-the-text-the-parser-keeps] result.input == input && typeIs(result.lexer, "*lexer.Lexer") && unbox(result.lexer, "*lexer.Lexer").input == input
 
 // ---- verbatim copying of token values into nodes (C06: "the same names, the same strings verbatim") ----
 //@ func (*Parser).parseIdent
